@@ -8,6 +8,7 @@ import itertools
 
 from vf.monitor import Probes
 
+MIN_RANDOM = 150  # random iterations run per shard whatever the wall-clock budget (floors must not depend on machine load)
 SHARDS = {"quick": 4, "thorough": 16}
 BUDGET = {"quick": 20, "thorough": 240}
 MIN_CASES = {"quick": 5000, "thorough": 100000}
@@ -211,7 +212,7 @@ def run(ctx):
         toks_pool = ["a", "b", "c", 0, 1, None, ("x", 1), "", "ab", 2.5]
         forms = [("tuple", lambda k: k), ("list", lambda k: list(k)), ("str", None)]
         n = 0
-        while ctx.time_left() and n < (3000 if ctx.tier == "quick" else 400000):
+        while (ctx.time_left() or n < MIN_RANDOM) and n < (3000 if ctx.tier == "quick" else 400000):
             n += 1
             form, kf = forms[rng.randrange(3)]
             if form == "str":
